@@ -355,9 +355,26 @@ def execute_orbit(ctx: RunCtx) -> None:
     system = ORB["sys"][s]
     lp = {1: L1Point, 2: L2Point}[p](system)
     orbit = lp.create_orbit(fam, **dict(kw, **{an: amp}))
+    # pre-history of the orbit object: the property speaks of every correction that reports success, not only the first
+    # one on a fresh analytic seed
+    pre = ds.pick(["none", "loose_1e-5_first", "loose_1e-4_first", "rounded_state_and_period"], "orbit.prehistory", (0.55, 0.2, 0.1, 0.15))
+    if pre.startswith("loose"):
+        try:
+            orbit.correct(orbit.correction_options.merge(**{"base.convergence.tol": 1e-5 if "1e-5" in pre else 1e-4}))
+        except Exception:
+            pass
+    elif pre == "rounded_state_and_period":
+        try:
+            o2 = lp.create_orbit(fam, **dict(kw, **{an: amp}))
+            o2.correct()
+            orbit = type(o2)(lp, initial_state=np.round(np.array(o2.initial_state, float), 7))
+            orbit.period = round(float(o2.period), 7)
+        except Exception:
+            pre = "none"
+    ctx.probe("prehistory_" + pre)
     x_before, T_before = np.array(orbit.initial_state, float), orbit.period
     opts = orbit.correction_options.merge(**{"base.convergence.tol": tol, "base.convergence.max_attempts": max_attempts})
-    cfgd = {"sys": s, "point": p, "family": fam, an: amp, "tol": tol, "max_attempts": max_attempts}
+    cfgd = {"sys": s, "point": p, "family": fam, an: amp, "tol": tol, "max_attempts": max_attempts, "prehistory": pre}
     log.add("cfg", {k: (fhex(v) if isinstance(v, float) else v) for k, v in cfgd.items()}, sorted((k, v) for k, v in faults.items()))
     state = {}
     real_run = _NB.run
@@ -433,6 +450,9 @@ def execute_orbit(ctx: RunCtx) -> None:
     x, T = np.array(orbit.initial_state, float), float(orbit.period)
     if not np.all(np.isfinite(x)) or not np.isfinite(T) or T <= 0:
         raise Violation("C05/P1-nonfinite", f"{what}: correct() returned but initial_state={x.tolist()}, period={T}; faults: {fired}")
+    if not np.array_equal(x, np.array(res.x_corrected, float)):
+        raise Violation("C05/P1-state-not-applied", f"{what}: correct() returned x_corrected={np.array(res.x_corrected).tolist()} but orbit.initial_state is {x.tolist()} "
+                                                    f"(prehistory: {pre})")
     if abs(T - 2.0 * float(res.half_period)) > 1e-12 * max(1.0, T):
         raise Violation("C05/P1-period", f"{what}: orbit.period={T!r} != 2*half_period={2.0 * float(res.half_period)!r}")
     if not (float(res.residual_norm) < tol):
